@@ -68,6 +68,8 @@ structure Valid (c : Cfg) : Prop where
   /-- restart inputs: the `[current]` table was written for this number of interfaces (/repo 971ccbc);
       nothing to ask when the dictionary has no `[current]` table -/
   size : ∀ s, c.curSize = some s → s = c.interfaces.length
+  /-- the interfaces are numbers (/repo a54d86e; always so for the values this `Int`-typed model holds) -/
+  numeric : c.intfNumeric = true
 
 /-- every ensemble has a non-empty engine list (what the first picks index into) -/
 def EnginesCover (c : Cfg) : Prop :=
@@ -76,6 +78,7 @@ def EnginesCover (c : Cfg) : Prop :=
 /-- what `check_config` implements before the gromacs loop, declaratively (`preCheck_ok_iff`) -/
 structure PreOk (c : Cfg) : Prop where
   two : 2 ≤ c.interfaces.length
+  numeric : c.intfNumeric = true
   lm1 : ∀ x, c.lm1 = .val x → ∃ f, c.interfaces.head? = some f ∧ x < f
   noQuantisLm1 : ¬ (c.quantis = some true ∧ ∃ x, c.lm1 = .val x ∧ x ≠ 0)
   workers : c.workers ≤ (c.interfaces.length : Int) - 1
@@ -372,20 +375,20 @@ theorem preCheck_ok_iff (c : Cfg) : preCheck c = .ok () ↔ PreOk c := by
     Decidable.not_not, isort_eq_self_iff, distinct_length_eq_iff, roomTest_ok_iff,
     engineListTest_ok_iff, sizeTest_ok_iff]
   constructor
-  · rintro ⟨h1, h2, h3, h4, h5, h6, h7, hsz, h8, h9, h10, h11⟩
+  · rintro ⟨h1, hnum, h2, h3, h4, h5, h6, h7, hsz, h8, h9, h10, h11⟩
     have hne : c.interfaces ≠ [] := by
       intro h; rw [h] at h1; simp at h1
     rw [capTest_ok_iff _ _ hne] at h8
-    refine ⟨by omega, h2, ?_, by omega, (pairwise_lt_iff _).2 ⟨h5, h6⟩, by omega, hsz, h8, h9, h10, h11⟩
+    refine ⟨by omega, by simpa using hnum, h2, ?_, by omega, (pairwise_lt_iff _).2 ⟨h5, h6⟩, by omega, hsz, h8, h9, h10, h11⟩
     rintro ⟨hq, hx⟩
     rcases h3 with h3 | h3
     · simp [hq] at h3
     · exact h3 hx
-  · rintro ⟨h1, h2, h3, h4, h5, h6, hsz, h7, h8, h9, h10⟩
+  · rintro ⟨h1, hnum, h2, h3, h4, h5, h6, hsz, h7, h8, h9, h10⟩
     have hne : c.interfaces ≠ [] := by
       intro h; rw [h] at h1; simp at h1
     rw [capTest_ok_iff _ _ hne]
-    refine ⟨by omega, h2, ?_, by omega, ((pairwise_lt_iff _).1 h5).1, ((pairwise_lt_iff _).1 h5).2,
+    refine ⟨by omega, by simpa using hnum, h2, ?_, by omega, ((pairwise_lt_iff _).1 h5).1, ((pairwise_lt_iff _).1 h5).2,
       by omega, hsz, h7, h8, h9, h10⟩
     by_cases hq : c.quantis = some true
     · right; intro hx; exact h3 ⟨hq, hx⟩
@@ -397,7 +400,8 @@ theorem preCheck_error (c : Cfg) (e : Err) (hne : c.ensEngines ≠ none)
     (h : preCheck c = .error e) : e = .config := by
   unfold preCheck at h
   simp only [seq_error_iff, rejectIf_ok_iff, decide_eq_false_iff_not] at h
-  rcases h with h | ⟨h1, h | ⟨_, h | ⟨_, h | ⟨_, h | ⟨_, h | ⟨_, h | ⟨_, h | ⟨_, h | ⟨_, h | ⟨_, h⟩⟩⟩⟩⟩⟩⟩⟩⟩⟩
+  rcases h with h | ⟨h1, h | ⟨_, h | ⟨_, h | ⟨_, h | ⟨_, h | ⟨_, h | ⟨_, h | ⟨_, h | ⟨_, h | ⟨_, h | ⟨_, h⟩⟩⟩⟩⟩⟩⟩⟩⟩⟩⟩
+  · exact rejectIf_error _ e h
   · exact rejectIf_error _ e h
   · refine lm1Test_error _ _ e ?_ h
     intro hn; rw [hn] at h1; simp at h1
@@ -441,7 +445,8 @@ example : CodeOk good := (check_ok_iff good).1 (by decide)
 
 theorem PreOk.valid {c : Cfg} (h : PreOk c) : Valid c :=
   { sorted := h.sorted, two := h.two, workers := h.workers, moves := h.moves,
-    capInside := h.capInside, capRoom := h.capRoom, engines := h.engines, lm1 := h.lm1, size := h.size }
+    capInside := h.capInside, capRoom := h.capRoom, engines := h.engines, lm1 := h.lm1, size := h.size,
+    numeric := h.numeric }
 
 /-- **Soundness of acceptance.** Every configuration `check_config` lets through satisfies the
     property's whole list: strictly increasing interfaces, at least two, workers ≤ n−1,
@@ -475,7 +480,7 @@ theorem valid_accepted (c : Cfg) (hv : Valid c)
     (hcov : EnginesCover c) (hg : ∀ p ∈ c.engines, p.2.cls ≠ 0) : check c = .ok () := by
   rw [check_ok_iff]
   exact {
-    pre := { two := hv.two, lm1 := hv.lm1, noQuantisLm1 := hq, workers := hv.workers,
+    pre := { two := hv.two, numeric := hv.numeric, lm1 := hv.lm1, noQuantisLm1 := hq, workers := hv.workers,
              sorted := hv.sorted, moves := hv.moves, size := hv.size, capInside := hv.capInside,
              capRoom := hv.capRoom, cover := hcov, engines := hv.engines }
     gromacs := fun ee _ k1 e1 _ hl hc => absurd hc (hg (k1, e1) (lookup_mem hl)) }
@@ -569,7 +574,7 @@ theorem old_witnesses_rejected :
 /-- **Normalisation is idempotent.** What the defaults block produces is left unchanged by
     running the block again (a restart file carries the normalised values). -/
 theorem normalise_idempotent (c : Cfg) : normalise (normalise c) = normalise c := by
-  obtain ⟨intf, w, mv, cap, lm1, q, ee, eng, seed, acc, cs⟩ := c
+  obtain ⟨intf, w, mv, cap, lm1, q, ee, eng, seed, acc, cs, num⟩ := c
   rcases ee with _ | ⟨_ | ⟨n0, ee⟩⟩ <;> rcases q with _ | _ | _ <;> cases intf <;>
     cases lm1 <;> cases seed <;> cases acc <;> cases cs <;> rfl
 
@@ -841,7 +846,7 @@ theorem workers_boundary (c : Cfg) (h : check c = .ok ()) :
   constructor
   · rw [check_ok_iff]
     exact {
-      pre := { two := hc.pre.two, lm1 := hc.pre.lm1, noQuantisLm1 := hc.pre.noQuantisLm1,
+      pre := { two := hc.pre.two, numeric := hc.pre.numeric, lm1 := hc.pre.lm1, noQuantisLm1 := hc.pre.noQuantisLm1,
                workers := Int.le_refl _, sorted := hc.pre.sorted, moves := hc.pre.moves, size := hc.pre.size,
                capInside := hc.pre.capInside, capRoom := hc.pre.capRoom, cover := hc.pre.cover,
                engines := hc.pre.engines }
@@ -931,9 +936,9 @@ theorem validB_iff (c : Cfg) : validB c = true ↔ Valid c := by
   unfold validB
   simp only [Bool.and_eq_true, decide_eq_true_eq, strictIncr_iff]
   constructor
-  · rintro ⟨⟨⟨⟨⟨⟨⟨h1, h2⟩, h3⟩, h4⟩, h5⟩, h6⟩, h7⟩, h8⟩
+  · rintro ⟨⟨⟨⟨⟨⟨⟨⟨h1, h2⟩, h3⟩, h4⟩, h5⟩, h6⟩, h7⟩, h8⟩, h9⟩
     refine { sorted := h1, two := h2, workers := h3, moves := h4, capInside := ?_, capRoom := ?_,
-             engines := ?_, lm1 := ?_, size := ?_ }
+             engines := ?_, lm1 := ?_, size := ?_, numeric := h9 }
     · intro x hx
       rw [hx] at h5
       cases hf : c.interfaces.head? with
@@ -968,7 +973,7 @@ theorem validB_iff (c : Cfg) : validB c = true ↔ Valid c := by
       rw [hsz] at h8
       simpa using h8
   · intro hv
-    refine ⟨⟨⟨⟨⟨⟨⟨hv.sorted, hv.two⟩, hv.workers⟩, hv.moves⟩, ?_⟩, ?_⟩, ?_⟩, ?_⟩
+    refine ⟨⟨⟨⟨⟨⟨⟨⟨hv.sorted, hv.two⟩, hv.workers⟩, hv.moves⟩, ?_⟩, ?_⟩, ?_⟩, ?_⟩, hv.numeric⟩
     · cases hc : c.cap with
       | none => rfl
       | some x =>
@@ -1686,24 +1691,64 @@ differs from the number of interfaces (an interface added to or removed from a r
 `setup_internal` then raised ValueError in `load_paths` (`self.state[ens, :] = valid`: "could not broadcast
 input array").  `checkAsIs` / `startUpAsIs` keep that code as a record. -/
 
-/-- the new test is the only difference: where it passes, the two checks agree -/
-theorem check_eq_asIs_of_size (c : Cfg) (h : sizeTest c = .ok ()) : check c = checkAsIs c := by
+/-- the two later tests (971ccbc: size, a54d86e: numbers) are the only difference: where they pass, the two checks agree -/
+theorem check_eq_asIs_of_size (c : Cfg) (h : sizeTest c = .ok ()) (hn : c.intfNumeric = true) :
+    check c = checkAsIs c := by
   unfold check checkAsIs preCheck preCheckAsIs
-  simp only [h, seq]
+  simp only [h, hn, seq, rejectIf, Bool.not_true, Bool.false_eq_true, if_false]
 
-/-- **What 971ccbc changed, exactly.** The repaired `check_config` accepts a configuration iff the old one did
-    and the `[current]` table (if any) was written for this number of interfaces. -/
+/-- **What 971ccbc (and, for values that are not numbers, a54d86e) changed, exactly.** The repaired
+    `check_config` accepts a configuration iff the old one did, the `[current]` table (if any) was written for
+    this number of interfaces, and the interfaces are numbers. -/
 theorem check_ok_iff_asIs (c : Cfg) :
-    check c = .ok () ↔ checkAsIs c = .ok () ∧ ∀ s, c.curSize = some s → s = c.interfaces.length := by
+    check c = .ok () ↔ checkAsIs c = .ok () ∧ (∀ s, c.curSize = some s → s = c.interfaces.length) ∧
+      c.intfNumeric = true := by
   constructor
   · intro h
     have hsz := ((check_ok_iff c).1 h).pre.size
-    exact ⟨by rw [← check_eq_asIs_of_size c ((sizeTest_ok_iff c).2 hsz)]; exact h, hsz⟩
-  · rintro ⟨h, hsz⟩
-    rw [check_eq_asIs_of_size c ((sizeTest_ok_iff c).2 hsz)]; exact h
+    have hn := ((check_ok_iff c).1 h).pre.numeric
+    exact ⟨by rw [← check_eq_asIs_of_size c ((sizeTest_ok_iff c).2 hsz) hn]; exact h, hsz, hn⟩
+  · rintro ⟨h, hsz, hn⟩
+    rw [check_eq_asIs_of_size c ((sizeTest_ok_iff c).2 hsz) hn]; exact h
 
-example : checkAsIs goodR = .ok () ∧ ∀ s, goodR.curSize = some s → s = goodR.interfaces.length :=
+example : checkAsIs goodR = .ok () ∧ (∀ s, goodR.curSize = some s → s = goodR.interfaces.length) ∧
+    goodR.intfNumeric = true :=
   (check_ok_iff_asIs goodR).1 (by decide)
+
+/-! ### interfaces that are not numbers (/repo commit a54d86e) -/
+
+/-- where the interfaces are numbers the test of a54d86e changes nothing -/
+theorem check_eq_noNumericTest (c : Cfg) (hn : c.intfNumeric = true) : check c = checkNoNumericTest c := by
+  unfold check checkNoNumericTest preCheck preCheckNoNumericTest
+  simp only [hn, seq, rejectIf, Bool.not_true, Bool.false_eq_true, if_false]
+
+/-- **Interfaces that are not numbers are rejected with a TOMLConfigError** — whatever else the configuration
+    says (at least two entries: fewer are rejected by the first test, also with a TOMLConfigError). -/
+theorem nonnumeric_rejected (c : Cfg) (hn : c.intfNumeric = false) : check c = .error .config := by
+  unfold check preCheck
+  by_cases h2 : ((c.interfaces.length : Int) < 2)
+  · simp [seq, rejectIf, h2]
+  · simp [seq, rejectIf, h2, hn]
+
+/-- `interfaces = ["0", "1"]` (order codes 0 < 1), all shooting, no cap, no λ₋₁ -/
+def stringInterfaces : Cfg :=
+  { good with
+    interfaces := [0, 1], workers := 1, moves := [false, false], cap := none, lm1 := .off,
+    ensEngines := some [["engine"], ["engine"]], intfNumeric := false }
+
+/-- **The defect a54d86e repaired (record).**  Strings sort and compare among themselves: the old
+    `check_config` accepted `interfaces = ["0", "1"]` (then `load_paths` compared a string with the path's
+    order values: TypeError, outside this model); the repaired one rejects it with a TOMLConfigError. -/
+theorem string_interfaces_asIs_counterexample :
+    checkNoNumericTest stringInterfaces = .ok () ∧ ¬ Valid stringInterfaces ∧
+    check stringInterfaces = .error .config := by
+  refine ⟨by decide, ?_, by decide⟩
+  intro hv
+  have := hv.numeric
+  simp [stringInterfaces] at this
+
+example : stringInterfaces.intfNumeric = false ∧ check { stringInterfaces with intfNumeric := true } = .ok () := by
+  decide
 
 /-- interfaces [0, 2, 4, 6], all shooting, in a restart file whose `[current]` table was written for 3 interfaces -/
 def sizeMismatch : Cfg :=
